@@ -41,6 +41,19 @@ def signature(v):
     return '%s@%s' % (v[0], v[1])
 
 
+def _cap(v, per_signature=5, total=60):
+    """One run at scale can violate a property a hundred thousand times (one
+    entry per agent); a few witnesses per signature are kept."""
+    seen = {}
+    out = []
+    for x in v['violations']:
+        k = (x[0], x[1])
+        seen[k] = seen.get(k, 0) + 1
+        if seen[k] <= per_signature and len(out) < total:
+            out.append(x)
+    v['violations'] = out
+
+
 def jsonable(x):
     if isinstance(x, dict):
         return dict((str(k), jsonable(v)) for k, v in x.items())
@@ -138,6 +151,7 @@ def run_chunk(args, stop_at=None):
                 xstats = {}
                 hist_len = len(execute.EXEC_LOG)
                 tr, v = spec.evaluate(sc, xstats=xstats, xrng=rng)
+                _cap(v)
                 if stop_at is not None and (i, j) == tuple(stop_at):
                     return {'violations': jsonable(v['violations']),
                             'digest': tr.digest(),
@@ -314,6 +328,7 @@ def _eval_with_history(prop, history, sc):
         except BaseException:
             pass
     tr, v = spec.evaluate(sc)
+    _cap(v)
     return {'violations': jsonable(v['violations']), 'digest': tr.digest()}
 
 
@@ -416,6 +431,7 @@ def replay(prop, path):
         except BaseException:
             pass
     tr, v = spec.evaluate(sc)
+    _cap(v)
     sigs = [signature(x) for x in v['violations']]
     rep = doc['signature'] in sigs
     return rep, tr.digest() == doc.get('digest'), sigs, v
